@@ -749,7 +749,12 @@ def _parse_phase_numpydoc_and_google(
             cur = {"name": name.strip()}
             if typ:
                 cur.update(
-                    {"typ": typ.lstrip(), "doc": "\n".join(map(white_spacer, scan[1:]))}
+                    {
+                        "typ": typ.lstrip(),
+                        "doc": ("\n" if parse_original_whitespace else " ").join(
+                            map(white_spacer, scan[1:])
+                        ),
+                    }
                 )
             return cur
 
